@@ -13,6 +13,7 @@ ap = argparse.ArgumentParser()
 ap.add_argument("prop"); ap.add_argument("n")
 ap.add_argument("--props", nargs="*")
 ap.add_argument("--no-suite", action="store_true")
+ap.add_argument("--skip-checks", action="store_true")
 ns = ap.parse_args()
 wt = f"/tmp/wt/{ns.prop}"; out = f"/tmp/wt/out/{ns.prop}"
 patch = f"{out}/mut{ns.n}.diff"; demo = f"{out}/demo{ns.n}.py"; notes = f"{out}/notes{ns.n}.md"
@@ -31,7 +32,7 @@ if not ns.no_suite:
     suite = (r.returncode, r.stdout.strip()[-200:])
 sh(f"git -C {wt} checkout -- . && git -C {wt} clean -fdq")
 props = ns.props or sorted({ns.prop, "C03", "C12"})
-ev = sh(f"cd /verif && tools/seeded.py {patch} {' '.join(props)}")
+ev = sh("true") if ns.skip_checks else sh(f"cd /verif && tools/seeded.py {patch} {' '.join(props)}")
 caught = re.search(r"CAUGHT-BY: (.*)", ev.stdout)
 caught = caught.group(1).split() if caught and caught.group(1) != "none" else []
 sigs = [ln.strip() for ln in ev.stdout.splitlines() if ln.strip().startswith("violation")]
